@@ -14,21 +14,38 @@ class C03(Prop):
     id = "C03"
     level = "proof"
     design_ref = "§8 C03"
-    level_text = ("Lean: a statement-faithful model of the whole Escoffier-Lang-Ozturk elimination (validated against the real "
-                  "function: same verdict and same axis on 36 000+ profiles, and on every run here) with theorems: a True "
-                  "answer always comes with an axis that lists every alternative exactly once (axis_perm) and on which "
-                  "every voter is single-peaked (true_sound), hence True implies single-peaked (true_imp_SP); the Case "
-                  "2(d) exit returns exactly the verified axis test; three distinct last-ranked alternatives imply not "
-                  "single-peaked; the function never raises on rankings. Verified witness checker and brute-force decider. "
-                  "The converse (a False answer is always right) is compared with the verified brute force (m <= 7) and "
-                  "planted single-peaked profiles up to m = 30, n = 200 on every run: tested, not proved")
-    level_note = ("Lean kernel + standard axioms; hand-written model tied to the code by the correspondence check; exactness "
-                  "of 'False' rests on differential testing against verified oracles")
-    theorems = ["PrefVerif.C03.axis_perm", "PrefVerif.C03.true_sound", "PrefVerif.C03.true_imp_SP",
-                "PrefVerif.C03.case2d_checked", "PrefVerif.C03.three_last_not_sp", "PrefVerif.C03.never_raises",
-                "PrefVerif.C03.run_good", "PrefVerif.C03.fuel_irrelevant",
-                "PrefVerif.C11.spWitness_iff", "PrefVerif.C11.bruteSP_iff", "PrefVerif.C11.spOnAxis_iff",
-                "PrefVerif.C11.orderOk_iff"]
+    level_text = ("Lean: a statement-faithful model of the whole Escoffier-Lang-Ozturk elimination (same verdict and same "
+                  "axis as the real function on 36 000+ profiles, and on every run here) whose verdict is proved exact: "
+                  "C03c.exact (True iff some axis makes every top-k set contiguous), verdict_eq_bruteSP, true_sound / "
+                  "axis_perm (a True answer comes with an axis listing every alternative once on which every voter is "
+                  "single-peaked), false_sound (each of the four False exits - three last-ranked candidates in some round, "
+                  "the two contradiction breaks, a failing Case 2(d) test - contradicts the existence of a valid axis), "
+                  "never_raises. Verified witness checker and brute-force decider. The real function's verdict is "
+                  "compared with the model and with the verified brute force / planted profiles up to m = 30, n = 200, "
+                  "and its axis is judged by the verified checker, on every run")
+    level_note = ("Lean kernel + standard axioms; hand-written model tied to the code by the correspondence check")
+    theorems = [
+        "PrefVerif.C03c.exact",
+        "PrefVerif.C03c.false_sound",
+        "PrefVerif.C03c.verdict_iff",
+        "PrefVerif.C03c.verdict_eq_bruteSP",
+        "PrefVerif.C03c.run_complete",
+        "PrefVerif.C03c.three_last_exit_not_sp",
+        "PrefVerif.C03c.case2d_fail_not_sp",
+        "PrefVerif.C03c.contra_not_sp",
+        "PrefVerif.C03.axis_perm",
+        "PrefVerif.C03.true_sound",
+        "PrefVerif.C03.true_imp_SP",
+        "PrefVerif.C03.case2d_checked",
+        "PrefVerif.C03.three_last_not_sp",
+        "PrefVerif.C03.never_raises",
+        "PrefVerif.C03.run_good",
+        "PrefVerif.C03.fuel_irrelevant",
+        "PrefVerif.C11.spWitness_iff",
+        "PrefVerif.C11.bruteSP_iff",
+        "PrefVerif.C11.spOnAxis_iff",
+        "PrefVerif.C11.orderOk_iff",
+    ]
     rule = ("exhaustive: all profiles with <= 3 distinct orders over 3 alternatives and <= 2 over 4; random profiles "
             "m <= 7, n <= 6 against brute force; planted single-peaked profiles (random axis, outside-in votes) up to "
             "m = 30, n = 200 with shuffled storage and arbitrary ids, and one-swap perturbations; non-trivial = >= 2 "
